@@ -137,4 +137,16 @@ def dissolveMemberKeeping : Ty → List Ty
   | .union ts => ts
   | t => [t]
 
+def dissolveAltsKeeping : List Ty → List Ty
+  | [] => []
+  | t :: ts => dissolveMemberKeeping t ++ dissolveAltsKeeping ts
+
+/-- the enclosing union rebuilt by the other design / by its repaired variant -/
+def dissolve : Ty → Ty
+  | .union ts => .union (dissolveAlts ts)
+  | t => t
+def dissolveKeeping : Ty → Ty
+  | .union ts => .union (dissolveAltsKeeping ts)
+  | t => t
+
 end Dcg.Model.InferText
